@@ -1,6 +1,6 @@
 import Ark.Proofs.Table
 import Ark.Proofs.Rejects
-import Ark.Generated.Facts
+import Ark.Generated.FactsEvents
 
 namespace Ark.Props.C06
 open Ark
